@@ -528,6 +528,24 @@ def run(scenario, params, tape, detail=False):
                 viol.append(("C12.atomic", "interleaved-send", f"v{V}: send command {name} of request {owner} at t={tt:.4f} between the set-up and the send of request {open_owner}: {[(round(a, 4), b, c) for a, b, c in stream[:16]]}"))
                 break
             open_owner = None
+    # ... and per send attempt: a request that does set-up does it for EVERY enqueue attempt; a repeated attempt (after a busy answer and the
+    # back-off, during which other requests ran their own set-up and send) that goes out without its set-up leaves the set-up and the send that
+    # finally carries the message separated by other requests' set-up and send commands
+    with_setup = {owner for (_tt, name, owner) in stream if name in SETUP}
+    for i, (tt, name, owner) in enumerate(stream):
+        if name in SETUP or owner not in with_setup or owner is None:
+            continue
+        first_setup = next(j for j, e in enumerate(stream) if e[2] == owner and e[1] in SETUP)
+        if i < first_setup:
+            continue
+        prev = stream[i - 1] if i else None
+        if prev is None or prev[2] != owner or prev[1] not in SETUP:
+            between = [(round(a, 4), b, c) for a, b, c in stream[first_setup:i + 1]]
+            if any(c != owner for _a, _b, c in between):
+                viol.append(("C12.atomic", "send-attempt-without-its-setup", f"v{V}: send command {name} of request {owner} at t={tt:.4f} was not directly preceded by that request's own "
+                             f"set-up; between its set-up and this send the NCP saw {between}"))
+                break
+            probe("send_attempt_without_repeated_setup")
     seen, uniq = set(), []
     for v in viol:
         if (v[0], v[1]) not in seen:
